@@ -11,9 +11,10 @@ import (
 	"qeepverif/lib"
 )
 
-// AccStep: "acc" accumulates predictions P against targets T (equal lengths); "bad" is an
-// invalid call (Bad: 1 nil prediction, 2 nil target, 3 rank-0 inputs, 4 rank-2 inputs,
-// 5 mismatched lengths); "result" reads Result().
+// AccStep: "acc" accumulates predictions P against targets T (equal lengths; Bad == -1: one
+// tensor object serves as both); "bad" is an invalid call (Bad: 1 nil prediction, 2 nil target,
+// 3 rank-0 inputs, 4 rank-2 inputs, 5 mismatched lengths, 6 / 7 one rank-2 / rank-0 tensor
+// object as both operands); "result" reads Result().
 type AccStep struct {
 	Kind string    `json:"kind"`
 	P    []float64 `json:"p,omitempty"`
@@ -41,7 +42,13 @@ func genC19(t *rapid.T) C19Case {
 		switch k := rapid.IntRange(0, 9).Draw(t, "kind"); {
 		case k <= 5:
 			m := rapid.IntRange(1, 8).Draw(t, "batch")
+			if rapid.IntRange(0, 5).Draw(t, "bigbatch") == 0 {
+				m = rapid.IntRange(9, 300).Draw(t, "bigm")
+			}
 			st := AccStep{Kind: "acc", P: make([]float64, m), T: make([]float64, m)}
+			if rapid.IntRange(0, 7).Draw(t, "aliased") == 0 {
+				st.Bad = -1 // valid call with one tensor object as prediction and target
+			}
 			for j := 0; j < m; j++ {
 				st.P[j] = rapid.SampledFrom(alphabet).Draw(t, "p")
 				st.T[j] = rapid.SampledFrom(alphabet).Draw(t, "t")
@@ -53,7 +60,7 @@ func genC19(t *rapid.T) C19Case {
 			c.Steps = append(c.Steps, st)
 		case k <= 7:
 			m := rapid.IntRange(1, 4).Draw(t, "badlen")
-			st := AccStep{Kind: "bad", Bad: rapid.IntRange(1, 5).Draw(t, "bad"), P: make([]float64, m), T: make([]float64, m)}
+			st := AccStep{Kind: "bad", Bad: rapid.IntRange(1, 7).Draw(t, "bad"), P: make([]float64, m), T: make([]float64, m)}
 			for j := 0; j < m; j++ {
 				st.P[j], st.T[j] = 1, 1 // would all match if they were counted
 			}
@@ -105,17 +112,24 @@ func checkC19(c C19Case) *Failure {
 			if len(st.P) == 0 || len(st.P) != len(st.T) {
 				return nil
 			}
-			if err := acc.Accumulate(vec(st.P), vec(st.T)); err != nil {
-				return failf("step %d: Accumulate rejected two rank-1 tensors of length %d: %v", si, len(st.P), err)
+			pv, tv := st.P, st.T
+			var pt, tt tensor.Tensor = vec(pv), nil
+			if st.Bad == -1 {
+				tv, tt = pv, pt // the same tensor object twice
+			} else {
+				tt = vec(tv)
 			}
-			for j := range st.P {
-				if st.P[j] == st.T[j] {
+			if err := acc.Accumulate(pt, tt); err != nil {
+				return failf("step %d: Accumulate rejected two rank-1 tensors of length %d: %v", si, len(pv), err)
+			}
+			for j := range pv {
+				if pv[j] == tv[j] {
 					matched++
 				}
 			}
-			total += len(st.P)
-			allP = append(allP, st.P...)
-			allT = append(allT, st.T...)
+			total += len(pv)
+			allP = append(allP, pv...)
+			allT = append(allT, tv...)
 			sizes[len(st.P)] = true
 			if accepted > 0 && rejected > 0 {
 				rejectedBetween = true
@@ -137,6 +151,12 @@ func checkC19(c C19Case) *Failure {
 				p, t = lib.MustNew([]int{1, len(st.P)}, st.P, false), lib.MustNew([]int{1, len(st.T)}, st.T, false)
 			case 5:
 				t = vec(append(append([]float64{}, st.T...), 1))
+			case 6: // one rank-2 tensor object as both operands
+				p = lib.MustNew([]int{1, len(st.P)}, st.P, false)
+				t = p
+			case 7: // one rank-0 tensor object as both operands
+				p = lib.MustNew(nil, []float64{1}, false)
+				t = p
 			default:
 				return nil
 			}
